@@ -25,6 +25,9 @@ def build(rng, depth, k, in_module):
     consts = list(CONSTS) if use_consts else []
     kind = rng.randrange(3)
     rec = rng.choice([0, 0, 1, 2, 3]) if (depth >= 2 and not in_module) else 0
+    use_cb = rng.random() < .4
+    if use_cb: consts = ["S := import(\"strings\")"] + consts
+    cb_lines = set()
     def filler(lines):
         for _ in range(rng.randrange(0, 3)):
             u = "u%d := %d" % (rng.randrange(1000), rng.randrange(9))
@@ -57,6 +60,11 @@ def build(rng, depth, k, in_module):
                 lines.append("  }")
                 lines.append("  r := %s%d(x)" % (fname_prefix, d + 1)); fn_line[d] = len(lines)
                 lines.append("  return r")
+            elif use_cb and rng.random() < .4:
+                # the next function is called from a callback which a Go function (strings.Map) runs on a child VM: the
+                # calling function and the callback are both active, both on this line
+                lines.append("  r := S.Map(func(c) { return %s%d(x) }, \"a\")" % (fname_prefix, d + 1)); fn_line[d] = len(lines); cb_lines.add((file, len(lines)))
+                lines.append("  return r")
             else:
                 lines.append("  r := %s%d(x)" % (fname_prefix, d + 1)); fn_line[d] = len(lines)
                 lines.append("  return r")
@@ -67,14 +75,33 @@ def build(rng, depth, k, in_module):
         ml = list(consts)
         fl = body_lines(ml, "g", depth, "m1")
         filler(ml)
+        # half of the module layouts fail while the module body itself runs (the import expression is the pending call of
+        # the importing function), the others in a function of the module called after the import
+        at_import = rng.random() < .5
+        if at_import:
+            ml.append("boot := g1(1)"); boot_line = len(ml)
+            filler(ml)
         ml.append("return {f: g1}")
         mods.append("\n".join(ml) + "\n")
         lines = [""] * k + list(consts)
         filler(lines)
-        lines.append("m := import(\"m1\")")
-        filler(lines)
-        lines.append("res := m.f(1)")
-        expected.append(("(main)", len(lines)))
+        if at_import and rng.random() < .5:
+            # the import is made by a function of the main script
+            lines.append("load := func() {")
+            filler(lines)
+            lines.append("  m := import(\"m1\")"); imp_line = len(lines)
+            lines.append("  return m")
+            lines.append("}")
+            filler(lines)
+            lines.append("res := load()")
+            expected.append(("(main)", len(lines))); expected.append(("(main)", imp_line))
+        else:
+            lines.append("m := import(\"m1\")")
+            if at_import: expected.append(("(main)", len(lines)))
+            filler(lines)
+            lines.append("res := m.f(1)")
+            if not at_import: expected.append(("(main)", len(lines)))
+        if at_import: expected.append(("m1", boot_line))
         for d in range(1, depth + 1): expected.append(("m1", fl[d]))
         lines.append("return res")
     else:
@@ -91,7 +118,12 @@ def build(rng, depth, k, in_module):
             for _ in range(rec): expected.append(("(main)", fl["rec"]))
             for d in range(1, depth + 1): expected.append(("(main)", fl[d] + 0))
             lines.append("return res")
-    return "\n".join(lines) + "\n", mods, expected, ("error" if kind == 1 else ename)
+    # a line holding a callback contributes two active functions: the caller of strings.Map and the callback
+    expected2 = []
+    for f, l in expected:
+        expected2.append((f, l))
+        if (f, l) in cb_lines: expected2.append((f, l))
+    return "\n".join(lines) + "\n", mods, expected2, ("error" if kind == 1 else ename)
 
 def run(rep, br, proofs, rng, tier):
     n = 250 if tier == "quick" else 5000
@@ -143,7 +175,7 @@ def run(rep, br, proofs, rng, tier):
             rep.violation({"property": "C16", "kind": "correspondence", "why": "line table model (Pos/LineTable.v unpack) and SourceFileSet.Position disagree", "case": m["line"][:1500], "impl": m["expect"], "model": model.get(m["id"])}, found=False)
     rep.coverage.update({
         "evaluations": len(cases) + len(mcases), "distinct_nontrivial": ok,
-        "rule": "generated one-statement-per-line layouts (random blank lines, line comments, block comments before, after and across statements, filler declarations, literal constants as operands of the failing operator) in which an error (failing operator, failing builtin, bad index, call of a non-callable, wrong argument count, thrown value) escapes from call depth 0,1,2,3,5,8, in the main file or inside an imported source module, optionally through 1-3 recursive activations of one call site, x optimizer on/off x encode/decode x k prepended blank lines; expected lines computed by the generator; positions must lie inside the named file; real line tables and sampled offsets re-resolved by the Coq unpack; non-trivial = a trace was produced and matched",
+        "rule": "generated one-statement-per-line layouts (random blank lines, line comments, block comments before, after and across statements, filler declarations, literal constants as operands of the failing operator) in which an error (failing operator, failing builtin, bad index, call of a non-callable, wrong argument count, thrown value) escapes from call depth 0,1,2,3,5,8, in the main file, inside a function of an imported source module or while a module body runs during its import (made at top level or inside a function), optionally through 1-3 recursive activations of one call site, x optimizer on/off x encode/decode x k prepended blank lines; expected lines computed by the generator; positions must lie inside the named file; real line tables and sampled offsets re-resolved by the Coq unpack; non-trivial = a trace was produced and matched",
         "samples": [cases[0]["src"], str(cases[0]["expected"])],
         "traces_matched": ok, "unpack_compared": len(mcases), "disagreements": len(dis), "oracle_failures": len(fails)})
 
